@@ -8,7 +8,7 @@
 //! Every op is followed by run-to-quiescence on a current-thread runtime (the runtime's `on_thread_park`
 //! callback fires exactly when no task is runnable), so the observation of an op is schedule-independent.
 use std::{
-    collections::{BTreeMap, VecDeque},
+    collections::{BTreeMap, BTreeSet, VecDeque},
     pin::Pin,
     sync::{
         atomic::{AtomicBool, Ordering},
@@ -310,6 +310,70 @@ fn fk_code(hdr: u16) -> u64 {
 }
 
 // ------------------------------------------------------------------------------------------------
+/// How a `write_all` call of the application ended.
+#[derive(Clone, Copy, Debug, PartialEq)]
+enum WR {
+    Ok,
+    /// the context of the call was cancelled by the harness while the call was suspended
+    Canceled,
+    Err,
+    /// still in flight
+    Pending,
+}
+/// One `write_all` call on a transient stream.
+#[derive(Clone, Debug)]
+struct WRec {
+    data: Vec<u8>,
+    res: WR,
+}
+
+/// The oracle for "data written on a transient sub-stream is received complete and in order": `got` has to be
+/// (`complete`: exactly; otherwise: a prefix of) the concatenation, in call order, of ALL the data of every `write_all`
+/// that returned Ok and of SOME prefix of the data of every `write_all` that did not (cancelled, failed, in flight).
+/// `Err` describes the first write that cannot be placed: the hole.
+fn explain(recs: &[WRec], got: &[u8], complete: bool) -> Result<(), String> {
+    let mut offs: BTreeSet<usize> = [0].into();
+    for (i, r) in recs.iter().enumerate() {
+        let mut next = BTreeSet::new();
+        for &o in &offs {
+            let rest = &got[o..];
+            let common = rest.iter().zip(r.data.iter()).take_while(|(a, b)| a == b).count();
+            if r.res == WR::Ok {
+                if common == r.data.len() {
+                    next.insert(o + common);
+                } else if !complete && common == rest.len() {
+                    // `got` ends inside this write
+                    return Ok(());
+                }
+            } else {
+                for j in 0..=common {
+                    next.insert(o + j);
+                }
+            }
+        }
+        if next.is_empty() {
+            let o = *offs.iter().next_back().unwrap();
+            let rest = &got[o..];
+            let common = rest.iter().zip(r.data.iter()).take_while(|(a, b)| a == b).count();
+            let hist: Vec<String> = recs[..=i].iter().map(|r| format!("{}:{:?}", r.data.len(), r.res)).collect();
+            return Err(format!(
+                "write_all #{i} ({} bytes, returned Ok) is not there: at offset {o} of the {} bytes only its first {common} bytes follow, then {} (calls so far [len:result]: {})",
+                r.data.len(),
+                got.len(),
+                if o + common < got.len() { format!("byte {:#04x} where {:#04x} was written", got[o + common], r.data[common]) } else { "the data ends".into() },
+                hist.join(" ")
+            ));
+        }
+        offs = next;
+    }
+    if offs.contains(&got.len()) {
+        Ok(())
+    } else {
+        let o = *offs.iter().next_back().unwrap();
+        Err(format!("{} bytes beyond everything the {} write_all calls can account for", got.len() - o, recs.len()))
+    }
+}
+
 type Cell<T> = Arc<Mutex<Option<T>>>;
 fn cell<T>() -> Cell<T> {
     Arc::new(Mutex::new(None))
@@ -331,8 +395,8 @@ struct Held {
     write_dropped: bool,
     /// index of this transient stream among those handed out on its reusable stream
     sess: usize,
-    /// bytes this slot wrote / read so far
-    wrote: Vec<u8>,
+    /// bytes this slot has read so far
+    got: Vec<u8>,
     nread: usize,
     /// read_exact calls issued on this slot
     reads_issued: usize,
@@ -354,8 +418,8 @@ struct Side {
     out_off: usize,
     /// number of transient streams handed out so far per reusable stream
     nsess: BTreeMap<(bool, u16), usize>,
-    /// bytes written per (conn, id, session) by this side's application, and whether the write half was dropped
-    written: BTreeMap<(bool, u16, usize), (Vec<u8>, bool)>,
+    /// the write_all calls per (conn, id, session) of this side's application, and whether the write half was dropped
+    written: BTreeMap<(bool, u16, usize), (Vec<WRec>, bool)>,
     /// sender-side monitor: per (conn,id): automaton state (0 idle,1 open), data emitted in the current session
     tx_state: BTreeMap<(bool, u16), (u8, Vec<u8>, usize)>,
     /// pending connect-opens without a known id, per capability (FIFO)
@@ -394,6 +458,10 @@ struct Session {
     sent_total: usize,
     hs_len: usize,
     op_no: usize,
+    /// the record of the write_all started by the current op
+    last_rec: Option<(usize, (bool, u16, usize))>,
+    /// (cancellations of a call suspended while the writer task was parked on the transport, other cancellations)
+    cancels: (usize, usize),
 }
 
 pub struct C14 {
@@ -503,7 +571,7 @@ impl C14 {
             for side in s.sides.iter_mut() {
                 side.slots.clear();
             }
-            s.clock.advance(time::Duration::hours(2));
+            s.clock.advance(time::Duration::hours(4000));
             s.quiesce();
             s.quiesce();
         }
@@ -525,7 +593,7 @@ impl C14 {
         let root = ctx::test_root(&clock);
         let child = {
             let _g = rt.enter();
-            root.with_timeout(time::Duration::hours(1))
+            root.with_timeout(time::Duration::hours(2000))
         };
         let mut sess = Session {
             rt,
@@ -538,6 +606,8 @@ impl C14 {
             sent_total: 0,
             hs_len: 0,
             op_no: 0,
+            last_rec: None,
+            cancels: (0, 0),
         };
         let (acc, con, pacc, pcon) = (caps_of(&op["acc"]), caps_of(&op["con"]), caps_of(&op["pacc"]), caps_of(&op["pcon"]));
         let c1: ChanRef = Arc::new(Mutex::new(Chan::default()));
@@ -640,8 +710,8 @@ impl C14 {
                             // everything the application wrote in this session has been sent
                             let key = (conn, id, e.2);
                             if let Some((w, _)) = s.written.get(&key) {
-                                if *w != e.1 {
-                                    fail("tx_session_bytes", format!("side {si} ({conn},{id}) session {}: sent {} bytes before CLOSE, application wrote {}", e.2, e.1.len(), w.len()));
+                                if let Err(why) = explain(w, &e.1, true) {
+                                    fail("tx_session_bytes", format!("side {si} ({conn},{id}) session {}: CLOSE sent after {} payload bytes: {why}", e.2, e.1.len()));
                                 }
                             }
                             e.2 += 1;
@@ -654,8 +724,8 @@ impl C14 {
                     let e = s.tx_state.get(&(conn, id)).unwrap();
                     let key = (conn, id, e.2);
                     if let Some((w, _)) = s.written.get(&key) {
-                        if !w.starts_with(&e.1) {
-                            fail("tx_session_bytes", format!("side {si} ({conn},{id}) session {}: sent bytes are not a prefix of the written bytes", e.2));
+                        if let Err(why) = explain(w, &e.1, false) {
+                            fail("tx_session_bytes", format!("side {si} ({conn},{id}) session {}: the {} payload bytes sent are not a prefix of what was written: {why}", e.2, e.1.len()));
                         }
                     } else if !e.1.is_empty() {
                         fail("tx_session_bytes", format!("side {si} ({conn},{id}) sent data nobody wrote"));
@@ -668,17 +738,21 @@ impl C14 {
         if let Some((si, slot)) = self.flushed.take() {
             let s = &sess.sides[si];
             if let Some(SlotSt::Held(h)) = s.slots.get(&slot) {
-                if run_class(&s.run) == "up" && !h.write_dropped {
+                // (with the writer task parked on a transport that takes nothing, flush only means "handed to the writer")
+                let parked = s.outp.lock().unwrap().wwaker.is_some();
+                if run_class(&s.run) == "up" && !h.write_dropped && !parked {
                     let on_wire = s.tx_state.get(&(h.conn, h.id)).filter(|e| e.2 == h.sess && e.0 == 1).map(|e| e.1.clone()).unwrap_or_default();
-                    if on_wire != h.wrote {
-                        fail("flush_not_on_wire", format!("side {si} slot {slot}: flush returned Ok, {} of {} written bytes are visible on the transport", on_wire.len(), h.wrote.len()));
+                    let empty = (vec![], false);
+                    let (w, _) = s.written.get(&(h.conn, h.id, h.sess)).unwrap_or(&empty);
+                    if let Err(why) = explain(w, &on_wire, true) {
+                        fail("flush_not_on_wire", format!("side {si} slot {slot}: flush returned Ok, {} payload bytes are visible on the transport: {why}", on_wire.len()));
                     }
                 }
             }
         }
         // pass 2: completions
         #[allow(clippy::type_complexity)]
-        let mut reads: Vec<(usize, u64, bool, u16, usize, usize, Vec<u8>, bool)> = vec![];
+        let mut reads: Vec<(usize, u64, bool, u16, usize, Vec<u8>, bool)> = vec![];
         for si in 0..nsides {
             let sent_total = sess.sent_total;
             let s = &mut sess.sides[si];
@@ -729,7 +803,7 @@ impl C14 {
                                 read_dropped: false,
                                 write_dropped: false,
                                 sess: sess_no,
-                                wrote: vec![],
+                                got: vec![],
                                 nread: 0,
                                 reads_issued: 0,
                                 handover_off: sent_total,
@@ -753,8 +827,9 @@ impl C14 {
                                     let eos = b.len() < n;
                                     done.push(json!([si, slot, "read", hex(&b), eos as u8]));
                                     self_check_read(si, slot, h, &b, eos, raw, sess_peer(&sess.peer, h), &mut fail);
-                                    reads.push((si, slot, h.conn, h.id, h.sess, h.nread, b.clone(), eos));
                                     h.nread += b.len();
+                                    h.got.extend_from_slice(&b);
+                                    reads.push((si, slot, h.conn, h.id, h.sess, h.got.clone(), eos));
                                 }
                                 Err(e) => done.push(json!([si, slot, "readerr", e])),
                             }
@@ -764,8 +839,8 @@ impl C14 {
             }
         }
         // pass 2b: what a transient stream returned against what its counterpart sent in the same session
-        for (si, slot, conn, id, sn, off, b, eos) in &reads {
-            let (si, slot, conn, id, sn, off, eos) = (*si, *slot, *conn, *id, *sn, *off, *eos);
+        for (si, slot, conn, id, sn, got, eos) in &reads {
+            let (si, slot, conn, id, sn, eos) = (*si, *slot, *conn, *id, *sn, *eos);
             let up = run_class(&sess.sides[si].run) == "up";
             if raw {
                 let closed = sess.peer.get(&(conn, id)).and_then(|pk| pk.sessions.get(sn)).map(|x| x.1).unwrap_or(false);
@@ -778,15 +853,16 @@ impl C14 {
                 // (the counterpart's transient stream of this session may not have been handed over yet: nothing written)
                 let empty = (vec![], false);
                 let (w, wclosed) = sess.sides[other].written.get(&(!conn, id, sn)).unwrap_or(&empty);
-                if w.len() < off + b.len() || w[off..off + b.len()] != b[..] {
-                    fail("read_bytes_mismatch", format!("side {si} slot {slot} ({conn},{id}) session {sn}: {} bytes read at offset {off} are not what the counterpart wrote ({} bytes so far)", b.len(), w.len()));
-                }
-                if eos && up && run_class(&sess.sides[other].run) == "up" {
-                    if !*wclosed {
-                        fail("eos_without_close", format!("side {si} slot {slot} ({conn},{id}) session {sn}: end of stream while the counterpart's write half is still open"));
-                    } else if off + b.len() != w.len() {
-                        fail("eos_before_all_data", format!("side {si} slot {slot} ({conn},{id}) session {sn}: end of stream after {} of {} bytes", off + b.len(), w.len()));
+                let both_up = up && run_class(&sess.sides[other].run) == "up";
+                if eos && both_up && !*wclosed {
+                    fail("eos_without_close", format!("side {si} slot {slot} ({conn},{id}) session {sn}: end of stream while the counterpart's write half is still open"));
+                } else if eos && both_up {
+                    // end of stream: everything the counterpart's write_all calls accepted has arrived, in order
+                    if let Err(why) = explain(w, got, true) {
+                        fail("eos_before_all_data", format!("side {si} slot {slot} ({conn},{id}) session {sn}: end of stream after {} bytes: {why}", got.len()));
                     }
+                } else if let Err(why) = explain(w, got, false) {
+                    fail("read_bytes_mismatch", format!("side {si} slot {slot} ({conn},{id}) session {sn}: the {} bytes read so far are not what the counterpart wrote: {why}", got.len()));
                 }
             }
         }
@@ -967,8 +1043,37 @@ impl C14 {
                     }
                     "open" => sess.op_open(si, op),
                     "read" => sess.op_read(si, op),
-                    "write" => sess.op_write(si, op),
-                    "flush" => sess.op_flush(si, op),
+                    "write" => sess.op_write(si, op, false),
+                    "flush" => sess.op_flush(si, op, false),
+                    // write_all / flush under a context of its own, which the harness cancels if the call is still
+                    // suspended when nothing can move any more
+                    "cwrite" => sess.op_write(si, op, true),
+                    "cflush" => sess.op_flush(si, op, true),
+                    // raw: the peer is going to take `n` more bytes from the transport (null: no limit)
+                    "win" => {
+                        if sess.raw {
+                            let c = &sess.sides[0].outp;
+                            {
+                                let mut g = c.lock().unwrap();
+                                g.limit = op["n"].as_u64().map(|n| g.wtotal + n as usize);
+                            }
+                            chan_wake_writer(c);
+                            "ok".into()
+                        } else {
+                            "noraw".into()
+                        }
+                    }
+                    // pair: the pipe from this side to the other holds at most `n` unread bytes (null: unbounded)
+                    "cap" => {
+                        if sess.raw {
+                            "nopair".into()
+                        } else {
+                            let c = &sess.sides[si].outp;
+                            c.lock().unwrap().cap = op["n"].as_u64().map(|n| n as usize);
+                            chan_wake_writer(c);
+                            "ok".into()
+                        }
+                    }
                     "drop" => sess.op_drop(si, op),
                     "quiet" => "ok".into(),
                     _ => "badop".into(),
@@ -981,7 +1086,18 @@ impl C14 {
             let sess = self.sess.as_mut().unwrap();
             sess.collect_write(Self::side_of(op), op, res)
         };
-        self.flushed = if kind == "flush" && res == "ok" { Some((Self::side_of(op), op["slot"].as_u64().unwrap_or(0))) } else { None };
+        if kind == "cwrite" || kind == "cflush" {
+            out.count(&format!("{kind}={res}"));
+            let c = self.sess.as_ref().unwrap().cancels;
+            for _ in 0..c.0 {
+                out.count("cancel_at_reservation(writer parked on the transport)");
+            }
+            for _ in 0..c.1 {
+                out.count("cancel_elsewhere");
+            }
+            self.sess.as_mut().unwrap().cancels = (0, 0);
+        }
+        self.flushed = if (kind == "flush" || kind == "cflush") && res == "ok" { Some((Self::side_of(op), op["slot"].as_u64().unwrap_or(0))) } else { None };
         self.finish_obs(obs, &res, out)
     }
 }
@@ -1127,7 +1243,7 @@ impl Session {
         "ok".into()
     }
 
-    fn op_write(&mut self, si: usize, op: &Value) -> String {
+    fn op_write(&mut self, si: usize, op: &Value, cancellable: bool) -> String {
         let slot = op["slot"].as_u64().unwrap_or(0);
         let n = op["n"].as_u64().unwrap_or(0) as usize;
         let seed = op["seed"].as_u64().unwrap_or(0);
@@ -1139,23 +1255,32 @@ impl Session {
             return "nohalf".into();
         };
         let data = payload(n, seed);
-        h.wrote.extend_from_slice(&data);
-        if let Some(w) = s.written.get_mut(&(h.conn, h.id, h.sess)) {
-            w.0.extend_from_slice(&data);
+        let key = (h.conn, h.id, h.sess);
+        if let Some(w) = s.written.get_mut(&key) {
+            w.0.push(WRec { data: data.clone(), res: WR::Pending });
+            self.last_rec = Some((si, key));
         }
         let c: WriteCell = cell();
         let c2 = c.clone();
         let ctx = self.ctx.clone();
         let _g = self.rt.enter();
         tokio::spawn(async move {
-            let r = wh.write_all(&ctx, &data).await.map_err(|e| format!("{e:#}"));
+            // the context of this one call: cancelled by advancing the manual clock past its deadline
+            let child;
+            let ctx: &ctx::Ctx = if cancellable {
+                child = ctx.with_timeout(time::Duration::seconds(1));
+                &child
+            } else {
+                &ctx
+            };
+            let r = wh.write_all(ctx, &data).await.map_err(|e| format!("{e:#}"));
             *c2.lock().unwrap() = Some((wh, r));
         });
         WRITE_CELL.with(|w| *w.borrow_mut() = Some(c));
-        "w".into()
+        if cancellable { "cw".into() } else { "w".into() }
     }
 
-    fn op_flush(&mut self, si: usize, op: &Value) -> String {
+    fn op_flush(&mut self, si: usize, op: &Value, cancellable: bool) -> String {
         let slot = op["slot"].as_u64().unwrap_or(0);
         let s = &mut self.sides[si];
         let Some(SlotSt::Held(h)) = s.slots.get_mut(&slot) else {
@@ -1169,32 +1294,65 @@ impl Session {
         let ctx = self.ctx.clone();
         let _g = self.rt.enter();
         tokio::spawn(async move {
-            let r = wh.flush(&ctx).await.map_err(|e| format!("{e:#}"));
+            let child;
+            let ctx: &ctx::Ctx = if cancellable {
+                child = ctx.with_timeout(time::Duration::seconds(1));
+                &child
+            } else {
+                &ctx
+            };
+            let r = wh.flush(ctx).await.map_err(|e| format!("{e:#}"));
             *c2.lock().unwrap() = Some((wh, r));
         });
         WRITE_CELL.with(|w| *w.borrow_mut() = Some(c));
-        "w".into()
+        if cancellable { "cw".into() } else { "w".into() }
     }
 
-    /// After quiescence: take the write half back and report the result of write_all / flush.
+    /// After quiescence: take the write half back and report the result of write_all / flush. A cancellable call that
+    /// is still suspended now is blocked for good (nothing can move any more): its context is cancelled.
     fn collect_write(&mut self, si: usize, op: &Value, res: String) -> String {
-        if res != "w" {
+        if res != "w" && res != "cw" {
             return res;
         }
         let slot = op["slot"].as_u64().unwrap_or(0);
         let c = WRITE_CELL.with(|w| w.borrow_mut().take());
         let Some(c) = c else { return "lost".into() };
-        let got = c.lock().unwrap().take();
-        match got {
+        let mut got = c.lock().unwrap().take();
+        let mut canceled = false;
+        if got.is_none() && res == "cw" {
+            let parked = self.sides[si].outp.lock().unwrap().wwaker.is_some();
+            self.clock.advance(time::Duration::seconds(2));
+            self.quiesce();
+            got = c.lock().unwrap().take();
+            canceled = true;
+            if parked {
+                self.cancels.0 += 1;
+            } else {
+                self.cancels.1 += 1;
+            }
+        }
+        let (r, wr) = match got {
             Some((wh, r)) => {
                 if let Some(SlotSt::Held(h)) = self.sides[si].slots.get_mut(&slot) {
                     h.write = Some(wh);
                 }
-                if r.is_ok() { "ok".into() } else { "err".into() }
+                if r.is_ok() {
+                    ("ok", WR::Ok)
+                } else if canceled {
+                    ("canceled", WR::Canceled)
+                } else {
+                    ("err", WR::Err)
+                }
             }
-            // still blocked at quiescence (does not happen with a transport that never blocks)
-            None => "pend".into(),
+            // still blocked at quiescence
+            None => ("pend", WR::Pending),
+        };
+        if let Some((si2, key)) = self.last_rec.take() {
+            if let Some(rec) = self.sides[si2].written.get_mut(&key).and_then(|w| w.0.last_mut()) {
+                rec.res = wr;
+            }
         }
+        r.into()
     }
 
     fn op_drop(&mut self, si: usize, op: &Value) -> String {
@@ -1357,6 +1515,22 @@ impl<'a> G<'a> {
     }
     fn flush(&mut self, side: usize, slot: u64) {
         self.ops.push(json!({"op":"flush","side":side,"slot":slot}));
+    }
+    /// write_all under a context of its own (cancelled by the harness if the call blocks for good)
+    fn cwrite(&mut self, side: usize, slot: u64, n: u64) {
+        let seed = self.seed(side, slot);
+        self.ops.push(json!({"op":"cwrite","side":side,"slot":slot,"n":n,"seed":seed}));
+    }
+    fn cflush(&mut self, side: usize, slot: u64) {
+        self.ops.push(json!({"op":"cflush","side":side,"slot":slot}));
+    }
+    /// raw: the peer takes `n` more bytes (None: without limit)
+    fn win(&mut self, n: Option<u64>) {
+        self.ops.push(json!({"op":"win","n":n}));
+    }
+    /// pair: bound on the unread bytes in the pipe from `side` to the other side
+    fn cap(&mut self, side: usize, n: Option<u64>) {
+        self.ops.push(json!({"op":"cap","side":side,"n":n}));
     }
     fn drop(&mut self, side: usize, slot: u64, half: &str) {
         self.ops.push(json!({"op":"drop","side":side,"slot":slot,"half":half}));
@@ -1720,6 +1894,184 @@ impl<'a> G<'a> {
         self.quiet();
     }
 
+    /// Back-pressure on the write path, raw peer: the peer stops taking bytes from the transport, so the writer task gets
+    /// stuck, the slot of the write channel fills up, and `write_all` / `flush` calls block in the reservation of that
+    /// slot; the harness cancels each blocked call, goes on writing on the same transient streams, lets the peer take
+    /// bytes again, closes. At CLOSE the payload sent on each stream must be what its write_all calls accepted.
+    fn raw_backpressure(&mut self) {
+        let wfs = self.pick(&[1u64, 2, 3, 5, 8]);
+        let cfg = [self.pick(&[4u64, 16]), 64, 8, wfs];
+        let n = self.r(1, 3) as u32;
+        let caps = [(3u64, n)];
+        self.init_raw(cfg, &caps, &caps, &caps, &caps);
+        let rg = [ranges(&cap_map(&caps), &caps), ranges(&cap_map(&caps), &caps)];
+        if self.r(0, 3) > 0 {
+            self.peer_initial_closes(&rg);
+        }
+        // establish 1..n transient streams, connect or accept
+        let mut ss: Vec<u64> = vec![];
+        let mut next_acc = 0u16;
+        for _ in 0..self.r(1, n as u64) {
+            if self.r(0, 1) == 0 {
+                let s = self.open(0, 1, 3);
+                let f = self.sf(s, 0, 0);
+                self.wire(vec![f]);
+                ss.push(s);
+            } else {
+                let f = self.rf(FK_OPEN, false, next_acc, 0);
+                next_acc += 1;
+                self.wire(vec![f]);
+                ss.push(self.open(0, 0, 3));
+            }
+        }
+        // some traffic while the peer still reads
+        for _ in 0..self.r(0, 3) {
+            let s = self.pick(&ss);
+            let k = self.r(0, 2 * wfs + 1);
+            self.cwrite(0, s, k);
+            if self.r(0, 2) == 0 {
+                self.cflush(0, s);
+            }
+        }
+        for round in 0..self.r(1, 2) {
+            // the peer stalls (after taking a few more bytes)
+            let w = self.pick(&[0u64, 0, 1, 3, 7]);
+            self.win(Some(w));
+            for _ in 0..self.r(5, 12) {
+                let s = self.pick(&ss);
+                match self.r(0, 9) {
+                    0..=6 => {
+                        let k = self.pick(&[1, 1, wfs, wfs + 1, 2 * wfs, 2 * wfs + 1, 3 * wfs + 2, wfs.saturating_sub(1).max(1)]);
+                        self.cwrite(0, s, k);
+                    }
+                    7 | 8 => self.cflush(0, s),
+                    _ => {
+                        // inbound traffic is not affected by the stalled outbound direction
+                        let f = self.sf(s, 1, 3);
+                        self.wire(vec![f]);
+                        self.read(0, s, 2);
+                    }
+                }
+            }
+            if round == 0 && ss.len() > 1 && self.r(0, 2) == 0 {
+                // a write half dropped while everything is stuck: its CLOSE has to queue behind the data
+                let s = ss.remove(0);
+                self.drop(0, s, "w");
+            }
+            if self.r(0, 2) == 0 {
+                // the peer takes one frame's worth, then stalls again
+                let w2 = self.r(1, wfs + 4);
+                self.win(Some(w2));
+                let s = self.pick(&ss);
+                self.cwrite(0, s, wfs + 1);
+                self.cwrite(0, s, 1);
+            }
+            // the peer reads again
+            self.win(None);
+            for _ in 0..self.r(1, 3) {
+                let s = self.pick(&ss);
+                let k = self.r(1, 2 * wfs + 1);
+                self.cwrite(0, s, k);
+            }
+            if self.r(0, 1) == 0 {
+                let s = self.pick(&ss);
+                self.cflush(0, s);
+            }
+        }
+        for s in ss {
+            let h = self.pick(&["w", "rw"]);
+            self.drop(0, s, h);
+        }
+        self.quiet();
+    }
+
+    /// Back-pressure end to end: two real muxes over a bounded pipe, the receiving application does not read, so the
+    /// receiving mux runs out of read permits, stops pulling, the pipe fills up, the sending writer task gets stuck and
+    /// `write_all` calls block in the reservation of the channel slot; they are cancelled, the sender goes on writing on
+    /// the same sub-stream, the receiver reads everything up to the end of the stream.
+    fn pair_backpressure(&mut self) {
+        self.reset();
+        let wfs = self.pick(&[1u64, 2, 3, 5, 8]);
+        let rfs = self.pick(&[2u64, 4, 8]);
+        let cfg_a = [16, 1000, 100, wfs];
+        let cfg_b = [rfs, rfs * self.r(1, 3) + self.r(0, 1), self.r(1, 3), self.pick(&[2u64, 7])];
+        let caps = [(0u64, 1u32)];
+        let two = self.r(0, 2) == 0;
+        let caps2 = [(0u64, 2u32)];
+        let cp: &[(u64, u32)] = if two { &caps2 } else { &caps };
+        self.ops.push(json!({"op":"init","reset":true,"mode":"pair","cfg":cfg_a,"pcfg":cfg_b,"acc":caps_json(cp),"con":caps_json(cp),"pacc":caps_json(cp),"pcon":caps_json(cp)}));
+        let c = self.pick(&[1u64, 6, 16, 40]);
+        self.cap(0, Some(c));
+        if self.r(0, 2) == 0 {
+            let c1 = self.r(1, 30);
+            self.cap(1, Some(c1));
+        }
+        // side 0 connects, side 1 accepts
+        let mut pairs: Vec<(u64, u64)> = vec![];
+        for _ in 0..(if two { 2 } else { 1 }) {
+            let a = self.open(0, 1, 0);
+            let b = self.open(1, 0, 0);
+            pairs.push((a, b));
+        }
+        let total = cfg_b[1] + c + 3 * wfs + 8;
+        let mut written = 0;
+        let mut guard = 0;
+        // write until well beyond what the receiver's buffers, the pipe, the writer and the channel slot can hold
+        while written < total + 4 * wfs && guard < 60 {
+            guard += 1;
+            let (a, b) = self.pick(&pairs);
+            let k = self.pick(&[1, wfs, wfs + 1, 2 * wfs, 2 * wfs + 1, 3 * wfs + 1]);
+            self.cwrite(0, a, k);
+            written += k;
+            match self.r(0, 11) {
+                0 => self.cflush(0, a),
+                1 => {
+                    // the receiver takes a little
+                    let k2 = self.r(1, 2 * rfs);
+                    self.read(1, b, k2);
+                }
+                2 => {
+                    // traffic in the other direction
+                    let k2 = self.r(1, 9);
+                    self.cwrite(1, b, k2);
+                    self.cflush(1, b);
+                    self.read(0, a, 4);
+                }
+                _ => {}
+            }
+        }
+        // blocked for sure by now: a few more calls, all of which have to be cancelled, then the stream is used on
+        for _ in 0..self.r(1, 4) {
+            let (a, _) = self.pick(&pairs);
+            if self.r(0, 3) == 0 {
+                self.cflush(0, a);
+            } else {
+                let k2 = self.r(1, 2 * wfs + 2);
+                self.cwrite(0, a, k2);
+            }
+        }
+        // the receiver drains part of it; the sender continues
+        for _ in 0..self.r(1, 3) {
+            let (a, b) = self.pick(&pairs);
+            let k2 = self.r(1, 3 * rfs + 2);
+            self.read(1, b, k2);
+            let k3 = self.r(1, 2 * wfs + 2);
+            self.cwrite(0, a, k3);
+        }
+        for (a, b) in pairs.clone() {
+            if self.r(0, 3) == 0 {
+                self.cflush(0, a);
+            }
+            self.drop(0, a, "w");
+            // read everything up to the end of the stream
+            for _ in 0..3 {
+                self.read(1, b, 1000);
+            }
+            self.read(1, b, 5);
+        }
+        self.quiet();
+    }
+
     /// two real muxes back to back, buffers large enough that no flow control interferes
     fn pair_random(&mut self, len: usize) {
         self.reset();
@@ -1847,10 +2199,16 @@ fn gen_all(opts: &Opts) -> Vec<Value> {
     for _ in 0..10 {
         g.raw_flood();
     }
+    for _ in 0..16 {
+        g.raw_backpressure();
+    }
+    for _ in 0..12 {
+        g.pair_backpressure();
+    }
     // random sessions; opts.n = number of sessions
     let n = opts.n;
     for i in 0..n {
-        match i % 10 {
+        match i % 12 {
             0..=3 => {
                 let len = g.r(10, 45) as usize;
                 g.raw_random(len, false)
@@ -1861,6 +2219,8 @@ fn gen_all(opts: &Opts) -> Vec<Value> {
             }
             6 => g.raw_flood(),
             7 => g.raw_reuse(),
+            10 => g.raw_backpressure(),
+            11 => g.pair_backpressure(),
             _ => {
                 let len = g.r(15, 60) as usize;
                 g.pair_random(len)
